@@ -306,11 +306,38 @@ pub fn run(toks: &[&str]) -> String {
                         return format!("INCONSISTENT {}", d.replace(' ', "_"));
                     }
                 }
+                // the chaining builder `argument()` is "add_argument or panic": same acceptance, same bytes — in every build profile
+                let before = c.clone();
+                let spec_owned = spec.to_string();
+                let chained: Result<Option<Vec<u8>>, String> = catch(move || {
+                    let (ty, val) = spec_owned.split_once(':')?;
+                    let c2 = match ty {
+                        "s" => before.argument(&*unhex_str(val)?),
+                        "S" => before.argument(unhex_str(val)?),
+                        "c" => before.argument(Cow::<str>::Owned(unhex_str(val)?)),
+                        "r" => before.argument(Raw(unhex(val))),
+                        _ => return None,
+                    };
+                    Some(sent_bytes(&c2))
+                });
                 match catch(|| add_spec(&mut c, spec)) {
                     Err(p) => return format!("panic {}", hex(p.as_bytes())),
                     Ok(None) => return "skip bad-spec".into(),
-                    Ok(Some(Ok(()))) => out.push(format!("ok {}", hex(&sent_bytes(&c)))),
-                    Ok(Some(Err(k))) => out.push(format!("{} {}", k.replace(' ', "_"), hex(&sent_bytes(&c)))),
+                    Ok(Some(Ok(()))) => {
+                        let sent = sent_bytes(&c);
+                        match &chained {
+                            Ok(Some(b)) if *b != sent => return format!("INCONSISTENT argument()_sends_{}_where_add_argument_sends_{}", hex(b), hex(&sent)),
+                            Err(_) => return format!("INCONSISTENT argument()_panics_on_an_argument_that_add_argument_accepts:_{}", spec),
+                            _ => {}
+                        }
+                        out.push(format!("ok {}", hex(&sent)))
+                    }
+                    Ok(Some(Err(k))) => {
+                        if let Ok(Some(b)) = &chained {
+                            return format!("INCONSISTENT argument()_accepts_what_add_argument_rejects_({})_and_sends_{}", k.replace(' ', "_"), hex(b));
+                        }
+                        out.push(format!("{} {}", k.replace(' ', "_"), hex(&sent_bytes(&c))))
+                    }
                 }
             }
             out.join(" ; ")
